@@ -282,6 +282,62 @@ def run_sequence(ctx, rng, n, k0, nops):
     return term, flags, problems, desc
 
 
+def own_box_probe(ctx, rng, problems):
+    """insert_transform with a transform that carries a bounding box of its own, next to identity / shift / scale steps: the WCS must
+    evaluate (with its default box handling) as the reference list composes and keep exactly the box it had"""
+    import numpy as np
+    from astropy.modeling import models
+    from gwcs import wcs, coordinate_frames as cf
+
+    def mk(kind):
+        if kind == "identity":
+            return models.Identity(2), (lambda p: list(p))
+        if kind == "shift":
+            a, b = rng.randint(-9, 9), rng.randint(-9, 9)
+            return models.Shift(a) & models.Shift(b), (lambda p, a=a, b=b: [p[0] + a, p[1] + b])
+        a, b = rng.choice([2, -3, 4]), rng.choice([2, 5, -1])
+        return models.Scale(a) & models.Scale(b), (lambda p, a=a, b=b: [p[0] * a, p[1] * b])
+    for k in range(12 if ctx.quick else 120):
+        kinds = [rng.choice(["identity", "identity", "shift", "scale"]) for _ in range(2)]
+        (m0, f0), (m1, f1) = mk(kinds[0]), mk(kinds[1])
+        frames = [cf.Frame2D(name="detector"), cf.Frame2D(name="focal"), cf.Frame2D(name="sky")]
+        w = wcs.WCS([(frames[0], m0), (frames[1], m1), (frames[2], None)])
+        own = rng.random() < 0.5
+        if own:
+            w.bounding_box = ((0, 1000), (0, 1000))
+        a, b = rng.randint(1, 9), rng.randint(1, 9)
+        t = models.Shift(a) & models.Shift(b)
+        t.bounding_box = ((0, 10), (0, 20))
+        ft = lambda p: [p[0] + a, p[1] + b]
+        where, after = rng.choice([("detector", True), ("focal", False), ("focal", True), ("sky", False)])
+        arg = where if rng.random() < 0.5 else frames[["detector", "focal", "sky"].index(where)]
+        step = {("detector", True): 0, ("focal", False): 0, ("focal", True): 1, ("sky", False): 1}[(where, after)]
+        chain = [[f0], [f1]]
+        chain[step] = ([ft] + chain[step]) if after else (chain[step] + [ft])
+        pt = [50.0, 60.0]
+        want = list(pt)
+        for ch in chain:
+            for f in ch:
+                want = f(want)
+        rec = dict(steps=kinds, own_box=own, insert=f"insert_transform({where}, Shift({a})&Shift({b}) with bounding_box ((0,10),(0,20)), after={after})",
+                   point=pt)
+        ctx.case(key=("ownbox", str(rec)), nontrivial=True, kind="insert-with-own-box", sample=rec)
+        try:
+            w.insert_transform(arg, t, after=after)
+            got = [float(v) for v in w(*pt)]
+            box = bbox_of(w)
+            mid = [float(v) for v in w.get_transform("focal", "sky")(*w.get_transform("detector", "focal")(*pt))]
+        except Exception as e:  # noqa
+            problems.append((f"insert_transform of a transform with its own box raised {type(e).__name__}: {str(e)[:100]}", [str(rec)]))
+            continue
+        want_box = [(0, 1000), (0, 1000)] if (own and step != 0) else None
+        if got != want or mid != want:
+            problems.append((f"insert_transform (transform with its own bounding box): evaluation {got} / step by step {mid} != reference "
+                             f"composition {want} at {pt}", [str(rec)]))
+        elif box != want_box:
+            problems.append((f"insert_transform (transform with its own bounding box): bounding box {box} != reference {want_box}", [str(rec)]))
+
+
 def run(ctx):
     from py2coq import gen_pipeline as G, t2
     from lib.common import REPO
@@ -311,6 +367,7 @@ def run(ctx):
         ctx.case(key=term, nontrivial=(any(flags) and not all(flags)), kind=f"len{len(flags)}",
                  sample={"dim": n, "ops": desc[:6]})
         allprob += problems[:1]
+    own_box_probe(ctx, rng, allprob)
     checker = "(fun c => match c with (w, tab, n, x, ops) => match run_check tab n w x ops 0 with None => true | Some _ => false end end)"
     failing = ctx.coq_failing("cases", HEADER, terms, checker, shard=60, label="WC01") if gen_src is not None else None
     ctx.oblige("correspondence: regenerated edit methods (vm_compute) reproduce status/frames/objects/box/evaluation after every op",
